@@ -185,9 +185,26 @@ PROPS = {
              "with every failing-key set; random: length <= 60 over 8 keys. Non-trivial = >= 1 scan with >= 1 callback; distinct by the word.",
              COMMON_ASSUME + ["a history runs in microseconds of real time while deadlines are minutes apart, so real-time comparisons in the code agree with the virtual-minute model"],
              "runtime monitor: deadline model + structural invariants of map/heap at a hook after every operation; injected callback failures; bounded-exhaustive + random histories"),
+    "C07": P(False, (8, 16), 16, (1200, 5400), 50000, 10000, "exploration",
+             "one evaluation = one (flow type, egress action, ingress action, MaxRetries in {0,1,2}, word over {S record from the source "
+             "node, D record from the destination node, Ea advance past the active deadline + scan, Ei advance past both deadlines + scan}, "
+             "PRNG correlate-field values: empty/non-empty strings, zero/non-zero u8, u16, signed32, IPv4/IPv6 cluster addresses) on a real "
+             "AggregationProcess (virtual time through the shift hook). Before every scan ReadyToSend must equal the model's (ready at once "
+             "unless an inter-node flow that is neither egress-denied nor ingress-rejected; then only after both sides reported); a scan "
+             "must hand over exactly the due and ready flow, with ReadyToSend and (correlated flows) AreCorrelatedFieldsFilled true; after "
+             "both sides reported, and at export, every correlated field must be the non-empty value of either side (either one if both "
+             "are non-empty); an uncorrelated flow is never exported, must be gone after MaxRetries+1 consecutive expiries, and while "
+             "retried must stay held and scheduled with both deadlines in the future. Exhaustive: every word up to length 5 (quick) / 6 "
+             "(thorough) x every combination; random words of length 7..30. Non-trivial = correlation-required flow with >= 2 records or a "
+             "scan; distinct by the case tuple.",
+             COMMON_ASSUME + ["within one flow the correlation requirement and each node's metadata are constant (the statement's preconditions)",
+                              "that an uncorrelated flow is retried exactly MaxRetries times is not in the statement and is not asserted"],
+             "runtime monitor: correlation state-machine model + field-merge accept-sets, checked at every scan and after every record; bounded-exhaustive words"),
 }
 
 LEVEL_TEXT = {
+    "C07": "Held on every arrival order and multiplicity of source/destination records up to the stated length, for every flow type and "
+           "rule-action pair, with expiry scans at every position.",
     "C06": "Held on every history explored: every combination of arrivals, time advances and failing callbacks to the stated depth over "
            "2-3 keys, random beyond. Callback failures are injected at every position a scan offers, which is what the suite never does.",
     "C05": "Held on every history explored, with the full aggregated record compared after every single operation. The aggregation "
